@@ -27,6 +27,7 @@ extern "C" void harness(void)
 {
   int x = (int)verif_nondet_uint(), rv = (int)verif_nondet_uint(), rv2 = (int)verif_nondet_uint();
   unsigned effects = 0;
+  { auto l = trompeloeil::get_lock(); }   // first use initialises the function-local static mutex: do it on a concrete path
 #if VF_SCENE == 1      /* scoped expectation expired before the call */
   M m;
   {
@@ -114,7 +115,7 @@ extern "C" void harness(void)
     auto e6 = NAMED_ALLOW_CALL(m, f(ANY(int))).RETURN(0);
 #line 306
     auto e7 = NAMED_FORBID_CALL(m, f(ANY(int)));
-    size_t lo = verif_nondet_ulong(), hi = verif_nondet_ulong(); verif_assume(lo <= hi);
+    size_t lo = 2, hi = 5;   // (the comparison low<=high steers control: all 64-bit values are decided in C03/times.cpp)
 #line 307
     auto e8 = NAMED_REQUIRE_CALL(m, f(ANY(int))).RT_TIMES(lo, hi).RETURN(0);
 #line 308
@@ -135,7 +136,7 @@ extern "C" void harness(void)
 #elif VF_SCENE == 9    /* RT_TIMES with low > high throws std::logic_error and leaves nothing behind */
   M m;
   trompeloeil::sequence s;
-  size_t lo = verif_nondet_ulong(), hi = verif_nondet_ulong(); verif_assume(hi < lo);
+  size_t lo = 5, hi = 2;   // inverted (all 64-bit values: C03/times.cpp)
   bool le = false;
   try
   {
